@@ -6,6 +6,7 @@
 //!                             -> `ok <hex of re-encoding>` | `err <DecodeError variant>` | `panic ..`
 //!       wire <hex>            `ln::wire::read` (hook `verif_hooks::wire::read`), 2-byte type + payload
 //!                             -> `ok <Variant> <id> <re-encoding>` | `ok Unknown <id> ignore|disconnect` | `err ..`
+//!       tx|wit|cs|i64 <hex>   `Transaction` / `Witness` / `VarInt` / `i64` readers -> `ok <re-encoding|value> <rest hex> [structure]` | `err ..`
 //!       bigsize <hex>         `util::ser::BigSize::read` -> `ok <n> <rest hex>` | `err ..`
 //!       bigenc <n>            `BigSize(n).encode()`
 //!
@@ -24,7 +25,9 @@
 //! ReplyChannelRange` answers `ok <re-encoding> n=<ids>`, `dec OnionMessage` answers `ok <re-encoding> h=<len hop_data>`, so the
 //! parsed STRUCTURE is compared with the model, not only the bytes.  Their valid stream is a structured generator over the real
 //! Rust types (`G::sock_addr`, `G::node_ann`, `G::scids`), their malformed stream is `custom_mutations` (every length field ±1, ±2,
-//! …).  `oracle <Name> <hex>` lines (TxAddInput, TxSignatures, RevokeAndACK) are directives: real decoder + oracles only.
+//! …).  TxAddInput / TxSignatures / RevokeAndACK (Model/MsgBitcoin.lean) answer `ok <re-encoding> t=none|<inputs>,<outputs>,<witness elements>` /
+//! `w=<elements per witness>` / `p=<hops per path>`; ops `tx` / `wit` / `cs` / `i64` compare the bitcoin consensus layer (Transaction,
+//! Witness, VarInt through LDK's impl_consensus_ser! error mapping) and `i64::read` with the model on their own (`btc_stream`).
 //!
 //! Implementation-side oracles (independent of the model): no panic; decode(encode(m)) == m for every
 //! built message; for every byte string that decodes, decode(encode(decoded)) == decoded; for node_announcement / scid lists /
@@ -260,12 +263,15 @@ const CUSTOM_NAMES: &[&str] = &["UnsignedNodeAnnouncement", "NodeAnnouncement", 
 /// messages with NO Lean model (bitcoin consensus encodings / blinded paths inside): the same valid + mutation streams run through the
 /// real decoder for the impl-side oracles only (no panic, decode(encode(m)) == m, re-encode stability, declared prevtx length); the
 /// op lines are recorded as directives (`oracle <Name> <hex>`, not compared with the model, not counted as cases)
-const ORACLE_ONLY_NAMES: &[&str] = &["TxAddInput", "TxSignatures", "RevokeAndACK"];
+const ORACLE_ONLY_NAMES: &[&str] = &[];
+/// bitcoin consensus encodings / blinded paths inside (Model/MsgBitcoin.lean: decodeTxAddInput, decodeTxSignatures, decodeRevokeAndAck):
+/// same valid + mutation streams as the schema messages, the answer line carries the parsed structure, all three behind `wire::read`
+const BTC_NAMES: &[&str] = &["TxAddInput", "TxSignatures", "RevokeAndACK"];
 /// number of TLV fields per message (for the presence mask)
 fn n_tlvs(name: &str) -> u32 {
 	match name {
 		"SpliceInit" | "SpliceAck" | "TxInitRbf" | "TxAckRbf" | "ClosingSigned" | "CommitmentSigned" | "ChannelReady"
-		| "UpdateFailHTLC" | "UpdateFulfillHTLC" | "StartBatch" => 1,
+		| "UpdateFailHTLC" | "UpdateFulfillHTLC" | "StartBatch" | "TxAddInput" | "TxSignatures" | "RevokeAndACK" => 1,
 		"ChannelReestablish" | "OpenChannel" | "AcceptChannel" | "Init" => 2,
 		"ClosingComplete" | "ClosingSig" => 3,
 		"UpdateAddHTLC" | "OpenChannelV2" | "AcceptChannelV2" => 4,
@@ -393,13 +399,20 @@ fn build(name: &str, g: &G, r: &mut Rng, mask: u32, fails: &mut Vec<String>) -> 
 		},
 		"RevokeAndACK" => {
 			use lightning::blinded_path::{message::BlindedMessagePath, BlindedHop};
-			let np = match r.below(3) { 0 => 0, 1 => 1, _ => r.below(4) as usize };
-			let paths = (0..np).map(|_| {
-				let nh = 1 + r.below(3) as usize;
-				let hops = (0..nh).map(|_| BlindedHop { blinded_node_id: g.pk(r), encrypted_payload: g.vecu8(r, 60) }).collect();
-				(g.u64b(r), BlindedMessagePath::from_blinded_path(g.pk(r), g.pk(r), hops))
+			let np = match r.below(3) { 0 => 1, 1 => 2, _ => 1 + r.below(4) as usize };
+			let paths: Vec<(u64, BlindedMessagePath)> = (0..np).map(|_| {
+				let nh = match r.below(24) { 0 => 255, 1 => 1, _ => 1 + r.below(3) as usize };
+				let hops: Vec<BlindedHop> = (0..nh).map(|_| BlindedHop { blinded_node_id: g.pk(r), encrypted_payload: if nh > 100 { vec![] } else { g.vecu8(r, 60) } }).collect();
+				let id = g.u64b(r);
+				if r.chance(1, 2) { (id, BlindedMessagePath::from_blinded_path(g.pk(r), g.pk(r), hops)) }
+				else {
+					// DirectedShortChannelId introduction node: no public constructor — decode hand-assembled bytes with the real reader
+					let mut b = vec![r.below(2) as u8]; b.extend_from_slice(&g.u64b(r).to_be_bytes()); b.extend_from_slice(&g.pk(r).serialize()); b.push(nh as u8);
+					for h in &hops { b.extend(h.encode()); }
+					match <BlindedMessagePath as Readable>::read(&mut &b[..]) { Ok(p) => (id, p), Err(e) => { fails.push(format!("hand-assembled BlindedMessagePath does not decode: {:?} {}", e, hex(&b))); (id, BlindedMessagePath::from_blinded_path(g.pk(r), g.pk(r), hops)) } }
+				}
 			}).collect();
-			fin!(msgs::RevokeAndACK { channel_id: g.cid(r), per_commitment_secret: g.b32(r), next_per_commitment_point: g.pk(r), release_htlc_message_paths: paths }, msgs::RevokeAndACK)
+			fin!(msgs::RevokeAndACK { channel_id: g.cid(r), per_commitment_secret: g.b32(r), next_per_commitment_point: g.pk(r), release_htlc_message_paths: if mask & 1 != 0 { paths } else { vec![] } }, msgs::RevokeAndACK)
 		},
 		"OnionMessage" => {
 			let n = match r.below(10) { 0 => 0, 1 => 1, 2 => 1300, 3 => 4096, 4 => 4097, _ => r.below(200) as usize };
@@ -449,6 +462,9 @@ fn dec_s<T: LengthReadable + Writeable + PartialEq + std::fmt::Debug>(name: &str
 		},
 	}
 }
+
+/// `wire::Message` variant name -> name of the `msgs` struct it carries (they differ for two variants)
+fn struct_name(variant: &str) -> &str { match variant { "Error" => "ErrorMessage", "Warning" => "WarningMessage", v => v } }
 
 fn addr_id(a: &msgs::SocketAddress) -> u8 {
 	use msgs::SocketAddress as A;
@@ -506,13 +522,30 @@ fn dec(name: &str, bytes: &[u8], fails: &mut Vec<String>) -> String {
 		"QueryShortChannelIds" => return dec_s::<msgs::QueryShortChannelIds>(name, bytes, fails, &|m, i, e| scid_structure(m.short_channel_ids.len(), 32, i, e)),
 		"ReplyChannelRange" => return dec_s::<msgs::ReplyChannelRange>(name, bytes, fails, &|m, i, e| scid_structure(m.short_channel_ids.len(), 41, i, e)),
 		"Init" => return dec_t::<msgs::Init>(name, bytes, fails),
-		"TxSignatures" => return dec_t::<msgs::TxSignatures>(name, bytes, fails),
-		"RevokeAndACK" => return dec_t::<msgs::RevokeAndACK>(name, bytes, fails),
+		// oracle: every declared u16 witness length is the consensus size of the witness returned, and count + lengths + witnesses are the bytes after the header
+		"TxSignatures" => return dec_s::<msgs::TxSignatures>(name, bytes, fails, &|m, i, _| {
+			let mut bad = vec![];
+			let mut pos = 66usize;
+			if i.len() < 66 || get_u16(i, 64) as usize != m.witnesses.len() { bad.push(format!("accepted with a declared witness count that is not the {} witnesses returned", m.witnesses.len())); }
+			for w in &m.witnesses {
+				if pos + 2 > i.len() { bad.push("accepted although the input ends before a witness length".to_string()); break; }
+				let declared = get_u16(i, pos) as usize;
+				let have = bitcoin::consensus::serialize(w).len();
+				if declared != have || w.size() != have { bad.push(format!("accepted with declared witness length {} but the witness returned occupies {} bytes (size() = {})", declared, have, w.size())); }
+				pos += 2 + have;
+			}
+			(format!(" w={}", m.witnesses.iter().map(|w| w.len().to_string()).collect::<Vec<_>>().join(",")), bad)
+		}),
+		"RevokeAndACK" => return dec_s::<msgs::RevokeAndACK>(name, bytes, fails, &|m, _, _| {
+			(format!(" p={}", m.release_htlc_message_paths.iter().map(|(_, p)| p.blinded_hops().len().to_string()).collect::<Vec<_>>().join(",")),
+			 if m.release_htlc_message_paths.iter().any(|(_, p)| p.blinded_hops().is_empty()) { vec!["accepted a blinded path without hops".to_string()] } else { vec![] })
+		}),
 		// oracle: the declared prevtx length (u16 after channel_id and serial_id) is exactly the serialized length of the transaction returned
 		"TxAddInput" => return dec_s::<msgs::TxAddInput>(name, bytes, fails, &|m, i, _| {
 			let declared = if i.len() >= 42 { u16::from_be_bytes([i[40], i[41]]) as usize } else { usize::MAX };
 			let have = m.prevtx.as_ref().map(|t| t.serialized_length()).unwrap_or(0);
-			(String::new(), if declared != have { vec![format!("accepted with declared prevtx length {} but the transaction returned occupies {} bytes", declared, have)] } else { vec![] })
+			let t = match &m.prevtx { None => "none".to_string(), Some(t) => format!("{},{},{}", t.input.len(), t.output.len(), t.input.iter().map(|x| x.witness.len()).sum::<usize>()) };
+			(format!(" t={}", t), if declared != have { vec![format!("accepted with declared prevtx length {} but the transaction returned occupies {} bytes", declared, have)] } else { vec![] })
 		}),
 		// oracles: the declared packet length is exactly 66 + hop data, and the re-encoding is the prefix of the input it covers
 		"OnionMessage" => return dec_s::<msgs::OnionMessage>(name, bytes, fails, &|m, i, e| {
@@ -627,6 +660,25 @@ fn custom_mutations(name: &str, full: &[u8], rng: &mut Rng, exhaustive: bool) ->
 		first_len_field = 40; fields16 = vec![40];
 		let declared = get_u16(full, 40) as usize;
 		boundaries = vec![42, 42 + declared, 42 + declared + 4, 42 + declared + 8];
+		if declared > 0 {
+			// version | input count or segwit marker | flag or first txid byte | …: every small value in the count / marker / flag positions
+			for o in [46usize, 47, 48] { if o < 42 + declared { type_bytes.push(o); } }
+			boundaries.extend([46, 47, 42 + declared - 4]);
+		}
+	} else if name == "TxSignatures" {
+		// channel_id, tx_hash, u16 witness count, then per witness a u16 length and the consensus-encoded witness
+		first_len_field = 64;
+		let n = get_u16(full, 64) as usize;
+		let mut f = vec![64usize];
+		let mut pos = 66usize;
+		for _ in 0..n {
+			if pos + 2 > full.len() { break; }
+			f.push(pos); type_bytes.push(pos + 2);   // the witness's element count
+			let l = get_u16(full, pos) as usize;
+			if l > 1 { type_bytes.push(pos + 3); }   // the first element's length
+			pos += 2 + l; boundaries.push(pos);
+		}
+		fields16 = f;
 	} else if name == "OnionMessage" {
 		first_len_field = 33; fields16 = vec![33];
 		type_bytes.push(36);   // the tag byte of the packet's public key
@@ -723,7 +775,7 @@ impl<'a> Run<'a> {
 					// oracle: re-encoding with the type prefix reads back as the same variant and bytes
 					let mut again = w.type_id.to_be_bytes().to_vec(); again.extend_from_slice(&w.reencoded);
 					match vh::wire::read(&again) { Ok(w2) if w2.variant == w.variant && w2.reencoded == w.reencoded => {}, _ => self.rec.oracle_fail(format!("wire::read(type ++ re-encoding) differs for {}", hex(bytes))) }
-					format!("ok {} {} {}", w.variant, w.type_id, hex(&w.reencoded))
+					format!("ok {} {} {}", struct_name(&w.variant), w.type_id, hex(&w.reencoded))
 				}
 			},
 		};
@@ -747,6 +799,116 @@ impl<'a> Run<'a> {
 	}
 }
 
+fn consensus_err(e: &bitcoin::consensus::encode::Error) -> String {
+	// the mapping of util/ser.rs impl_consensus_ser!
+	match e { bitcoin::consensus::encode::Error::Io(e) if e.kind() == bitcoin::io::ErrorKind::UnexpectedEof => "ShortRead".into(), bitcoin::consensus::encode::Error::Io(_) => "Io".into(), _ => "InvalidValue".into() }
+}
+
+/// bitcoin consensus layer on its own: ops `tx`, `wit`, `cs`, `i64`
+fn btc_stream(run: &mut Run, rng: &mut Rng, thorough: bool) {
+	use bitcoin::consensus::encode::VarInt;
+	let g = run.g;
+	let case_tx = |run: &mut Run, b: &[u8], kind: &str| {
+		let r = guarded(AssertUnwindSafe(|| { let mut s = b; <bitcoin::Transaction as Readable>::read(&mut s).map(|t| (t, s.to_vec())) }));
+		let ans = match r {
+			Err(p) => { run.rec.oracle_fail(format!("panic decoding a Transaction from {}: {}", hex(b), p)); format!("panic {}", p.replace('\n', " ")) },
+			Ok(Err(e)) => format!("err {}", err_name(&e)),
+			Ok(Ok((t, rest))) => {
+				let e = t.encode();
+				if <bitcoin::Transaction as Readable>::read(&mut &e[..]).ok().as_ref() != Some(&t) { run.rec.oracle_fail(format!("re-encoding of a decoded Transaction does not decode to an equal one: {}", hex(b))); }
+				if e.len() + rest.len() != b.len() || e[..] != b[..e.len()] { run.rec.oracle_fail(format!("Transaction decoder accepted a non-canonical encoding: input {} re-encoding {}", hex(b), hex(&e))); }
+				if t.input.is_empty() && !t.input.iter().all(|i| i.witness.is_empty()) { run.rec.oracle_fail("unreachable".into()); }
+				format!("ok {} {} {},{},{}", hex(&e), hex(&rest), t.input.len(), t.output.len(), t.input.iter().map(|x| x.witness.len()).sum::<usize>())
+			},
+		};
+		let outcome = ans.split(' ').take(if ans.starts_with("err") { 2 } else { 1 }).collect::<Vec<_>>().join(":");
+		run.rec.case(&format!("tx {}", hex(b)), &ans, &format!("tx-{}:{}", kind, outcome), true);
+	};
+	let case_wit = |run: &mut Run, b: &[u8], kind: &str| {
+		let r = guarded(AssertUnwindSafe(|| { let mut s = b; <bitcoin::Witness as Readable>::read(&mut s).map(|t| (t, s.to_vec())) }));
+		let ans = match r {
+			Err(p) => { run.rec.oracle_fail(format!("panic decoding a Witness from {}: {}", hex(b), p)); format!("panic {}", p.replace('\n', " ")) },
+			Ok(Err(e)) => format!("err {}", err_name(&e)),
+			Ok(Ok((w, rest))) => {
+				let e = w.encode();
+				if w.size() != e.len() { run.rec.oracle_fail(format!("Witness::size() = {} but the witness encodes to {} bytes: {}", w.size(), e.len(), hex(b))); }
+				if e.len() + rest.len() != b.len() || e[..] != b[..e.len()] { run.rec.oracle_fail(format!("Witness decoder accepted a non-canonical encoding: {}", hex(b))); }
+				format!("ok {} {} {}", hex(&e), hex(&rest), w.size())
+			},
+		};
+		let outcome = ans.split(' ').take(if ans.starts_with("err") { 2 } else { 1 }).collect::<Vec<_>>().join(":");
+		run.rec.case(&format!("wit {}", hex(b)), &ans, &format!("wit-{}:{}", kind, outcome), true);
+	};
+	let case_cs = |run: &mut Run, b: &[u8], kind: &str| {
+		let mut s = b;
+		let ans = match <VarInt as bitcoin::consensus::Decodable>::consensus_decode(&mut s) { Ok(v) => format!("ok {} {}", v.0, hex(s)), Err(e) => format!("err {}", consensus_err(&e)) };
+		let outcome = ans.split(' ').take(if ans.starts_with("err") { 2 } else { 1 }).collect::<Vec<_>>().join(":");
+		run.rec.case(&format!("cs {}", hex(b)), &ans, &format!("cs-{}:{}", kind, outcome), true);
+	};
+	// transactions
+	for k in 0..3 {
+		let mut t = g.tx(rng);
+		match k { 1 => { t.input.clear(); }, 2 => { for i in t.input.iter_mut() { i.witness = bitcoin::Witness::new(); } }, _ => {} }
+		let full = t.encode();
+		let mut ext = full.clone(); ext.extend(rb(rng, 4));
+		case_tx(run, &ext, "valid");
+		for c in 0..full.len() { if thorough || k == 0 || c < 12 || full.len() - c < 8 || rng.chance(1, 6) { case_tx(run, &full[..c], "trunc"); } }
+		for o in 0..full.len() {
+			if !(thorough || k == 0 || o < 12 || rng.chance(1, 4)) { continue; }
+			for v in [full[o].wrapping_add(1), full[o].wrapping_sub(1), 0, 1, 0xfd, 0xff] { if v != full[o] { let mut b = full.clone(); b[o] = v; case_tx(run, &b, "byte"); } }
+		}
+		// segwit form whose witnesses are all empty ("witness flag set but no witnesses present"), with and without the lock_time
+		if !t.input.is_empty() {
+			let mut legacy = t.clone(); for i in legacy.input.iter_mut() { i.witness = bitcoin::Witness::new(); }
+			let l = legacy.encode();
+			let mut b = l[..4].to_vec(); b.extend([0u8, 1]); b.extend_from_slice(&l[4..l.len() - 4]); b.extend(std::iter::repeat(0u8).take(legacy.input.len()));
+			for tail in [4usize, 3, 0] { let mut c = b.clone(); c.extend_from_slice(&l[l.len() - 4..l.len() - 4 + tail]); case_tx(run, &c, "empty-witnesses"); }
+			for flag in [0u8, 2, 0xff] { let mut c = b.clone(); c[5] = flag; c.extend_from_slice(&l[l.len() - 4..]); case_tx(run, &c, "bad-flag"); }
+		}
+		// non-minimal CompactSize input count
+		let mut b = full[..4].to_vec(); b.extend([0xfd, full[4], 0]); b.extend_from_slice(&full[5..]); case_tx(run, &b, "non-minimal");
+	}
+	case_tx(run, &rb(rng, 80), "random");
+	// witnesses
+	let maxv = 4_000_000u64;
+	for _ in 0..3 {
+		let w = g.witness(rng).encode();
+		let mut ext = w.clone(); ext.extend(rb(rng, 3)); case_wit(run, &ext, "valid");
+		for c in 0..w.len() { if c < 6 || w.len() - c < 4 || rng.chance(1, 5) { case_wit(run, &w[..c], "trunc"); } }
+		for _ in 0..12 { let mut b = w.clone(); let o = rng.below(b.len() as u64) as usize; b[o] = match rng.below(4) { 0 => b[o].wrapping_add(1), 1 => b[o].wrapping_sub(1), 2 => 0xfd, _ => rng.next() as u8 }; case_wit(run, &b, "byte"); }
+	}
+	// declared element counts / element sizes around MAX_VEC_SIZE (the count test precedes everything; the size test precedes the read)
+	for n in [maxv - 1, maxv, maxv + 1, 0xffff_ffff, u64::MAX, 0x1_0000_0000] {
+		let mut b = bitcoin::consensus::serialize(&VarInt(n)); b.extend(rb(rng, 6)); case_wit(run, &b, "count-limit");
+	}
+	for (first, sz) in [(0u64, maxv - 5), (0, maxv - 6), (0, maxv - 4), (0, maxv), (0, u64::MAX), (0, u64::MAX - 8), (10, maxv - 16), (10, maxv - 17), (10, maxv - 15), (300, maxv - 308), (300, maxv - 309), (300, maxv - 307)] {
+		// witness of 2 elements: the first of `first` bytes, the second DECLARES `sz` bytes (not present)
+		let mut b = vec![2u8]; b.extend(bitcoin::consensus::serialize(&VarInt(first))); b.extend(std::iter::repeat(7u8).take(first as usize));
+		b.extend(bitcoin::consensus::serialize(&VarInt(sz))); b.extend(rb(rng, 5));
+		case_wit(run, &b, "size-limit");
+	}
+	// CompactSize
+	for _ in 0..40 {
+		let n = match rng.below(5) { 0 => *rng.pick(&[0u64, 0xfc, 0xfd, 0xfe, 0xffff, 0x10000, 0xffff_ffff, 0x1_0000_0000, u64::MAX]), 1 => { let c = *rng.pick(&[0xfdu64, 0x10000, 0x1_0000_0000]); rng.near(c) }, 2 => 1u64 << rng.below(64), _ => g.u64b(rng) };
+		let enc = bitcoin::consensus::serialize(&VarInt(n));
+		let mut b = enc.clone(); b.extend(rb(rng, 3)); case_cs(run, &b, "valid");
+		let c = rng.below(enc.len() as u64 + 1) as usize; case_cs(run, &enc[..c], "trunc");
+		// non-minimal: the value in the next wider form
+		let wide: Vec<u8> = if n < 0xfd { vec![0xfd, n as u8, 0] } else if n <= 0xffff { let mut v = vec![0xfe]; v.extend_from_slice(&(n as u32).to_le_bytes()); v } else { let mut v = vec![0xff]; v.extend_from_slice(&n.to_le_bytes()); v };
+		case_cs(run, &wide, "non-minimal");
+		case_cs(run, &rb(rng, 10), "random");
+	}
+	// i64: two's complement
+	for _ in 0..30 {
+		let v = g.i64b(rng);
+		let mut b = v.to_be_bytes().to_vec(); b.extend(rb(rng, 2));
+		let c = if rng.chance(1, 6) { rng.below(8) as usize } else { b.len() };
+		let mut s = &b[..c];
+		let ans = match <i64 as Readable>::read(&mut s) { Ok(x) => { if x.encode() != b[..8] { run.rec.oracle_fail(format!("i64 {} re-encodes differently", x)); } format!("ok {} {}", x, hex(s)) }, Err(e) => format!("err {}", err_name(&e)) };
+		run.rec.case(&format!("i64 {}", hex(&b[..c])), &ans, if ans.starts_with("ok") { "i64:ok" } else { "i64:err" }, true);
+	}
+}
+
 fn main() {
 	let args = &parse_args("c13");
 	let rec = Rec::new(&args.out, "c13");
@@ -760,14 +922,14 @@ fn main() {
 	// type ids of the covered messages, from the real reader
 	let mut covered_ids: Vec<u16> = vec![];
 	let mut id_of: std::collections::BTreeMap<String, Option<u16>> = Default::default();
-	for name in NAMES.iter().chain(CUSTOM_NAMES.iter()) {
+	for name in NAMES.iter().chain(CUSTOM_NAMES.iter()).chain(BTC_NAMES.iter()).chain(TAIL_NAMES.iter()) {
 		let mut tmp = Rng::new(7);
 		let b = build(name, &g, &mut tmp, 0, &mut run.fails);
 		// find the id: the Encode::TYPE constants are crate-private; probe the ids through wire::read
 		let mut found = None;
 		for id in 0u16..1024 {
 			let mut w = id.to_be_bytes().to_vec(); w.extend_from_slice(&b);
-			if let Ok(x) = vh::wire::read(&w) { if x.variant == *name && x.reencoded == b { found = Some(id); break; } }
+			if let Ok(x) = vh::wire::read(&w) { if struct_name(&x.variant) == *name && x.reencoded == b { found = Some(id); break; } }
 		}
 		if let Some(id) = found { covered_ids.push(id); }
 		id_of.insert(name.to_string(), found);
@@ -775,11 +937,11 @@ fn main() {
 	run.flush_fails();
 
 	for rep in 0..reps {
-		for name in NAMES.iter().chain(TAIL_NAMES.iter()).chain(ORACLE_ONLY_NAMES.iter()) {
+		for name in NAMES.iter().chain(TAIL_NAMES.iter()).chain(BTC_NAMES.iter()) {
 			// the long messages (1.4 kB onion, 920-byte attribution data, kB blobs) dominate the size of the
 			// op files: in the thorough tier they take part in every 8th round only
 			if args.thorough && rep % 8 != 0 && matches!(*name, "UpdateAddHTLC" | "PeerStorage" | "PeerStorageRetrieval" | "UpdateFailHTLC" | "UpdateFulfillHTLC") { continue; }
-			if args.thorough && rep % 4 != 0 && ORACLE_ONLY_NAMES.contains(name) { continue; }
+			if args.thorough && rep % 4 != 0 && BTC_NAMES.contains(name) { continue; }
 			let nt = n_tlvs(name);
 			// (a) valid stream: every presence mask (up to 16), fresh values
 			let masks: Vec<u32> = (0..(1u32 << nt)).collect();
@@ -913,14 +1075,17 @@ fn main() {
 				Ok(true) => {},
 			}
 		}
-		// TxAddInput (oracle only): the same structure-aware stream around its u16 prevtx length
+		// TxAddInput / TxSignatures: the same structure-aware stream around the u16 prevtx length / witness count and lengths
 		if !args.thorough || rep % 4 == 0 {
-			for k in 0..2 {
-				let st = rng.next();
-				let full = build("TxAddInput", &g, &mut Rng(st), rng.below(2) as u32, &mut run.fails);
-				run.case_dec("TxAddInput", &full, "valid");
-				for (b, kind) in custom_mutations("TxAddInput", &full, &mut rng, k == 0) { run.case_dec("TxAddInput", &b, kind); }
+			for name in ["TxAddInput", "TxSignatures"] {
+				for k in 0..2 {
+					let st = rng.next();
+					let full = build(name, &g, &mut Rng(st), rng.below(2) as u32, &mut run.fails);
+					run.case_dec(name, &full, "valid");
+					for (b, kind) in custom_mutations(name, &full, &mut rng, k == 0) { run.case_dec(name, &b, kind); }
+				}
 			}
+			btc_stream(&mut run, &mut rng, args.thorough);
 		}
 		// unknown / cfg-gated / short type ids
 		for _ in 0..40 {
@@ -944,11 +1109,11 @@ fn main() {
 		}
 	}
 	let _ = run.g;
-	run.rec.notes.insert("rule".into(), "every op line (message name + exact byte string) is a distinct case; valid stream = every TLV presence mask of each of the 32 covered macro-declared messages, of the 12 hand-written codecs with a hand-written schema (Open/AcceptChannel(V2), (Unsigned)ChannelAnnouncement, (Unsigned)ChannelUpdate, ErrorMessage, WarningMessage, Ping, Pong) and of Init, with fresh PRNG values; mutation stream = 16 mutation kinds + truncations on those encodings; custom codecs (UnsignedNodeAnnouncement, NodeAnnouncement, QueryShortChannelIds, ReplyChannelRange, OnionMessage): structured generator over the real Rust types (all five SocketAddress kinds, 0..7 addresses, hostnames of length 0/1/254/255, unknown descriptor types as excess address data, excess data; 0..8191 ids; hop data 0..4097 bytes) + structure-aware malformed stream (every length field +-1, +-2, 0, max; every descriptor / encoding type byte; addrlen covering k descriptors +-1, +-2; byte deleted / inserted at every field boundary; truncation at every offset; single-bit and single-byte mutations from the first length field on); wire ops through the verif_hooks::wire::read accessor; BigSize boundary values".into());
-	run.rec.notes.insert("covered_messages".into(), format!("{},{},{}", NAMES.join(","), TAIL_NAMES.join(","), CUSTOM_NAMES.join(",")));
+	run.rec.notes.insert("rule".into(), "every op line (message name + exact byte string) is a distinct case; valid stream = every TLV presence mask of each of the 32 covered macro-declared messages, of the 12 hand-written codecs with a hand-written schema (Open/AcceptChannel(V2), (Unsigned)ChannelAnnouncement, (Unsigned)ChannelUpdate, ErrorMessage, WarningMessage, Ping, Pong) and of Init, TxAddInput, TxSignatures, RevokeAndACK (both introduction-node kinds, 1..4 paths, 1..255 hops), with fresh PRNG values; mutation stream = 16 mutation kinds + truncations on those encodings; custom codecs (UnsignedNodeAnnouncement, NodeAnnouncement, QueryShortChannelIds, ReplyChannelRange, OnionMessage): structured generator over the real Rust types (all five SocketAddress kinds, 0..7 addresses, hostnames of length 0/1/254/255, unknown descriptor types as excess address data, excess data; 0..8191 ids; hop data 0..4097 bytes) + structure-aware malformed stream (every length field +-1, +-2, 0, max; every descriptor / encoding type byte; addrlen covering k descriptors +-1, +-2; byte deleted / inserted at every field boundary; truncation at every offset; single-bit and single-byte mutations from the first length field on); wire ops through the verif_hooks::wire::read accessor; BigSize boundary values".into());
+	run.rec.notes.insert("covered_messages".into(), format!("{},{},{},{}", NAMES.join(","), TAIL_NAMES.join(","), CUSTOM_NAMES.join(","), BTC_NAMES.join(",")));
 	run.rec.notes.insert("wire_ids".into(), id_of.iter().map(|(k, v)| format!("{}={}", k, v.map(|x| x.to_string()).unwrap_or("not-dispatched".into()))).collect::<Vec<_>>().join(","));
-	run.rec.notes.insert("impl_oracles".into(), "no panic; decode(encode(m)) == m for every generated message; for every accepted byte string decode(encode(decoded)) == decoded; node_announcement: declared addrlen == bytes of the parsed descriptors + excess_address_data (sizes from Writeable::serialized_length), header + addrlen + excess == input length, encode(decode(b)) == b; scid lists: declared encoding_len == 1 + 8*ids, encoding type 0, re-encoding == covered prefix of the input; onion_message: declared packet length == 66 + hop data, re-encoding == covered prefix; tx_add_input: declared prevtx length == serialized length of the returned transaction; BigSize: accepted encodings are minimal".into());
-	run.rec.notes.insert("oracle_only".into(), format!("{} byte strings of {} went through the real decoders for the impl-side oracles only (no Lean model: bitcoin consensus encodings / blinded paths)", run.oracle_only, ORACLE_ONLY_NAMES.join(", ")));
-	run.rec.notes.insert("not_covered".into(), "no Lean model (impl-side oracles only): TxSignatures (Vec<Witness>, bitcoin consensus encoding), RevokeAndACK (optional_vec of (u64, BlindedMessagePath)), TxAddInput (bitcoin::Transaction consensus encoding)".into());
+	run.rec.notes.insert("impl_oracles".into(), "no panic; decode(encode(m)) == m for every generated message; for every accepted byte string decode(encode(decoded)) == decoded; node_announcement: declared addrlen == bytes of the parsed descriptors + excess_address_data (sizes from Writeable::serialized_length), header + addrlen + excess == input length, encode(decode(b)) == b; scid lists: declared encoding_len == 1 + 8*ids, encoding type 0, re-encoding == covered prefix of the input; onion_message: declared packet length == 66 + hop data, re-encoding == covered prefix; tx_add_input: declared prevtx length == serialized length of the returned transaction; tx_signatures: declared witness count and every declared witness length == what was returned (consensus size, Witness::size()); Transaction / Witness decoders accept only canonical encodings; BigSize: accepted encodings are minimal".into());
+	let _ = run.oracle_only;
+	run.rec.notes.insert("btc".into(), "TxAddInput, TxSignatures, RevokeAndACK are compared with Model/MsgBitcoin.lean (message level with parsed structure, and behind wire::read); ops tx / wit / cs compare bitcoin::Transaction / Witness / VarInt consensus decoding (through LDK's impl_consensus_ser! error mapping) with Btc.decodeTx / decodeWitness / CompactSize.decode on generated transactions (legacy, segwit, no inputs), every single-byte +-1 / 0 / ff / fd mutation, every truncation, all-empty witnesses behind the segwit flag, bad flags, declared counts and element sizes around MAX_VEC_SIZE; op i64 compares i64::read with readI64".into());
 	run.rec.finish();
 }
